@@ -123,6 +123,9 @@ Definition print_Z (z : Z) : list Z := if z <? 0 then 45 :: print_nat (- z) else
 Definition Integer_print (z : Z) : list Z := print_Z z.            (* return o << (mpz_srcptr)&gmp_rep *)
 Definition Integer_out (z : Z) : list Z := Integer_print z.         (* operator<< : a.print(o) *)
 Definition Integer_to_string (z : Z) : list Z := Integer_print z.   (* operator std::string: print(ostringstream) *)
+(* absOutput: mpz_get_str, then skip the first character when sign(n) < 0 *)
+Definition Integer_absOutput (z : Z) : list Z :=
+  if z <? 0 then match print_Z z with _ :: t => t | [] => [] end else print_Z z.
 Definition Integer_in (s : stream) (old : Z) : Z * stream := gmp_read 10 s old.   (* inp >> (mpz_ptr) *)
 
 (* mpz_set_str (x, str, 10): leading white space, optional '-', first character a digit, then digits with
@@ -155,9 +158,10 @@ Definition Integer_of_string (l : list Z) : Z :=
 (* ------------------------------------------------------------------ Rational (givratio.C, givratcstor.C) *)
 (* Rational(const Integer& n, const Integer& d, int red = 1); None = GivMathDivZero thrown *)
 Definition rat_norm (n d : Z) : option (Z * Z) :=
-  if d =? 0 then None
+  if d =? 0 then None                                           (* isZero(d): throw *)
   else
-    let '(n1, d1) := if 0 <? d then (n, d) else (- n, - d) in   (* the n == 0 branch is overwritten by these *)
+    let '(n1, d1) := if n =? 0 then (0, 1)                      (* isZero(n): 0/1 *)
+                     else if 0 <? d then (n, d) else (- n, - d) in
     let g := Z.gcd n1 d1 in                                      (* reduce() *)
     if g =? 1 then Some (n1, d1) else Some (Z.quot n1 g, Z.quot d1 g).
 (* Rational(const Integer& n) *)
@@ -186,7 +190,9 @@ Definition rat_read (s : stream) : option (Z * Z) * stream :=
     | (None, s2) => (Some (rat_of_Z num), s2)            (* if (in.eof()) *)
     | (Some ch, s2) =>
         let '(ch', s3) := blank_loop ch (rest s2) in
-        if ch' =? 47 then
+        (* fix (frag/C19.fix-3): if (!in) { in.clear(eofbit); r = Rational(num); return in; } *)
+        if failb s3 then (Some (rat_of_Z num), mkS [] true false)
+        else if ch' =? 47 then
           let '(den, s4) := Integer_in s3 1 in           (* Integer den = 1; in >> den; *)
           (rat_norm num den, s4)
         else (rat_norm num 1, sputback ch' s3)
@@ -246,14 +252,16 @@ Definition init_mod (p z : Z) : Z := z mod p.
 Definition init_bal (p z : Z) : Z := let r := z mod p in if p / 2 <? r then r - p else r.
 
 (* ------------------------------------------------------------------ RecInt (rudisplay.h, rdisplay.h) *)
-(* display_dec: for (i = 0; b != 0 && i < 1024; i++) { div(b, m, b, ten); result[i] = '0' + m; } *)
+(* display_dec: for (i = 0; b != 0 && i < sizeof(result); i++) { div(b, m, b, ten); result[i] = '0' + m; }
+   (repaired, frag/C19.fix-2: the buffer holds every digit of a 2^K-bit number, so the bound never cuts;
+   the fuel below is an upper bound on the number of digits) *)
 Fixpoint ru_dec_loop (fuel : nat) (b : Z) : list Z :=
   match fuel with
   | O => []
   | S f => if b =? 0 then [] else (48 + b mod 10) :: ru_dec_loop f (b / 10)
   end.
 Definition ru_display_dec (a : Z) : list Z :=
-  (if a =? 0 then [48] else []) ++ rev (ru_dec_loop 1024 a).    (* for (i--; i >= 0; i--) out << result[i] *)
+  (if a =? 0 then [48] else []) ++ rev (ru_dec_loop (S (Z.to_nat (Z.log2 a))) a).    (* for (i--; i >= 0; i--) out << result[i] *)
 
 (* display_hex: High then Low, each limb as setw(16) setfill('0') in hex: n digits, most significant first *)
 Fixpoint hex_fixed (ndigits : nat) (a : Z) : list Z :=
@@ -287,7 +295,7 @@ Definition ri_signed (k : nat) (u : Z) : Z := if u <? 2 ^ (ri_N k - 1) then u el
 Definition ru_display (k : nat) (a : Z) : list Z :=     (* display_dec(out, ruint<K>) incl. the K = 6 specialisation *)
   match k with O => print_nat a | _ => ru_display_dec a end.
 Definition ri_write (k : nat) (hex : bool) (a : Z) : list Z :=
-  if hex then ru_write k true (ri_unsigned k a)                         (* display_hex(out, a.Value) *)
+  if hex then hex_fixed (16 * Nat.pow 2 k)%nat (ri_unsigned k a)        (* display_hex(out, a.Value): also for K = 6 *)
   else if a <? 0 then 45 :: ru_display k (ri_unsigned k (- a))          (* out << '-'; display_dec(out, (-a).Value) *)
   else ru_display k (ri_unsigned k a).
 (* mpz_to_rint *)
@@ -360,29 +368,43 @@ Definition res3 (r : Z * stream) := (fst r, rest (snd r), eofb (snd r), failb (s
 Definition x_int_read (l : list Z) (old : Z) := res3 (Integer_in (from_chars l) old).
 Definition x_int_read_base (base : Z) (l : list Z) (old : Z) := res3 (gmp_read base (from_chars l) old).
 Definition x_int_write (z : Z) := Integer_out z.
+Definition x_int_abs (z : Z) := Integer_absOutput z.
 Definition x_int_of_string (l : list Z) := Integer_of_string l.
+Definition x_int_rt (z old : Z) (tail : list Z) :=
+  let t := Integer_out z in (t, x_int_read (t ++ tail) old).
 Definition x_int_seq (n : nat) (l : list Z) :=
   let '(xs, s) := read_many (fun s => Integer_in s 0) n (from_chars l) in (xs, rest s, eofb s, failb s).
 Definition x_rat_read (l : list Z) :=
   let '(q, s) := rat_read (from_chars l) in (q, rest s, eofb s, failb s).
 Definition x_rat_write (n d : Z) := rat_write (n, d).
+Definition x_rat_rt (n d : Z) (tail : list Z) :=
+  let t := rat_write (n, d) in (t, x_rat_read (t ++ tail)).
 Definition x_rat_norm (n d : Z) := rat_norm n d.
 Definition x_rat_seq (n : nat) (l : list Z) :=
   let '(xs, s) := read_many rat_read n (from_chars l) in (xs, rest s, eofb s, failb s).
 Definition x_num_get (lo hi : Z) (l : list Z) (old : Z) := res3 (num_get lo hi (from_chars l) old).
-Definition x_elt_write (bal : bool) (p z : Z) := elt_write (if bal then init_bal p z else init_mod p z).
+Definition x_init (bal : bool) (p : Z) := if bal then init_bal p else init_mod p.
+Definition x_elt_write (bal : bool) (p z : Z) := elt_write (x_init bal p z).
 Definition x_elt_read (bal : bool) (p : Z) (l : list Z) :=
-  res3 (elt_read (if bal then init_bal p else init_mod p) (from_chars l)).
+  res3 (elt_read (x_init bal p) (from_chars l)).
 Definition x_elt_read_word (bal : bool) (lo hi p : Z) (l : list Z) :=
-  res3 (elt_read_word lo hi (if bal then init_bal p else init_mod p) (from_chars l) 0).
+  res3 (elt_read_word lo hi (x_init bal p) (from_chars l) 0).
+(* write, then read the text followed by `tail`;  word = the reader goes through num_get of [lo,hi] *)
+Definition x_elt_rt (bal word : bool) (lo hi p z : Z) (tail : list Z) :=
+  let t := x_elt_write bal p z in
+  (t, if word then x_elt_read_word bal lo hi p (t ++ tail) else x_elt_read bal p (t ++ tail)).
 Definition x_ru_write (k : nat) (hex : bool) (a : Z) := ru_write k hex a.
 Definition x_ru_read (k : nat) (hex : bool) (l : list Z) := res3 (ru_read k hex (from_chars l)).
+Definition x_ru_rt (k : nat) (hex : bool) (a : Z) (tail : list Z) :=
+  let t := ru_write k hex a in (t, x_ru_read k hex (t ++ tail)).
 Definition x_ri_write (k : nat) (hex : bool) (a : Z) := ri_write k hex a.
 Definition x_ri_read (k : nat) (hex : bool) (l : list Z) := res3 (ri_read k hex (from_chars l)).
+Definition x_ri_rt (k : nat) (hex : bool) (a : Z) (tail : list Z) :=
+  let t := ri_write k hex a in (t, x_ri_read k hex (t ++ tail)).
 Definition x_poly_write (var : list Z) (bal : bool) (p : Z) (R : list Z) :=
-  poly_write var elt_write (map (if bal then init_bal p else init_mod p) R).
+  poly_write var elt_write (map (x_init bal p) R).
 Definition x_poly_read (bal : bool) (p : Z) (l : list Z) :=
-  let '(P, s) := poly_read (elt_read (if bal then init_bal p else init_mod p)) (from_chars l) 0 in
+  let '(P, s) := poly_read (elt_read (x_init bal p)) (from_chars l) 0 in
   (P, rest s, eofb s, failb s).
 Definition x_poly_degfmt (bal : bool) (p : Z) (R : list Z) :=
-  poly_degfmt elt_write (map (if bal then init_bal p else init_mod p) R).
+  poly_degfmt elt_write (map (x_init bal p) R).
